@@ -18,7 +18,7 @@ from hypothesis import strategies as st
 
 PROP = "C15"
 RULE = ("(a) the generated kernel source of every compiled model; (b) C fragments from a token-level grammar "
-        "(identifiers incl. x1e3, double_t, mydouble, cdouble, double4; integer/octal/hex literals; decimal floats in "
+        "(identifiers incl. x1e3, double_t, mydouble, cdouble, double4, double1, double10, double24; integer/octal/hex literals; decimal floats in "
         "every C spelling with and without suffix; hex floats; member access; casts; prototypes without parameter "
         "names; strings and character constants containing numbers; comments; preprocessor lines; ## pasting; math "
         "calls with integer arguments), separated by generated whitespace; (c) dtype request strings x models. "
@@ -142,7 +142,9 @@ def check_source(case, rec):
 # (b) fragments
 
 IDENTS = ["x", "x1e3", "double_t", "mydouble", "cdouble", "double4", "double", "double2", "double16", "doubles",
-          "e3", "f", "p1", "q_1", "M_PI", "s", "_double", "doubleValue", "cdouble2", "Gauss76Z", "n1e5", "E10"]
+          "e3", "f", "p1", "q_1", "M_PI", "s", "_double", "doubleValue", "cdouble2", "Gauss76Z", "n1e5", "E10",
+          # 'double' followed by digits that are no vector width: ordinary identifiers
+          "double1", "double3", "double10", "double12", "double160", "cdouble3", "double8", "double24"]
 INTS = ["0", "1", "42", "0x1F", "0XFF", "017", "100", "3u", "7L", "0xE", "0xe1"]
 FLOATS = ["1.0", "1.", ".5", "0.5", "1e3", "1E-3", "1.e5", "1.5e+10", "0.", "3.14159", "1e-30", "2.0E+4", ".5e1",
           "00.5", "1.0f", "2.0F", "3.0l", "4.0L", "1e3f", "10.", "6.02e23"]
